@@ -194,6 +194,9 @@ def main():
     c.rule = "exact family: %d models x 4 betas x all (i,j) x 5 imaginary times; general models: %d x 3 betas x all relations; non-trivial = distinct (model, component, beta) with data / (model, beta)" % (len(ms), len(gen))
     c.trusted = ["TLC", "tools/exact.py comparator", "python relational arithmetic"]
     c.assumptions = ["Matsubara-sum duality for general models uses 1200 frequencies with analytic 1/(i w) tail: tolerance 3e-3"]
+    # the objects this property speaks about, under call histories of the documented workflow (spec/Workflow.tla; result shared with C01 etc.)
+    import workflow
+    workflow.attach(c, {"GF"}, "Green's function (copies, repeated calls)")
     c.finish()
 
 
